@@ -55,7 +55,9 @@ def run(ctx):
     collect(covered, w)
     configs += 1
     # ---- MWEM+PGM ----------------------------------------------------------------------------------------
-    for noise, bounded in itertools.product(('gaussian', 'laplace'), (True, False)):
+    # a third value stands for every spelling the code tolerates without naming it ('normal', 'Gaussian', None ...): whatever branch the
+    # calibration takes for it, the sampling site must take the matching one
+    for noise, bounded in itertools.product(('gaussian', 'laplace', '<any other value>'), (True, False)):
         flags = {'noise': noise, 'bounded': bounded, 'workload': 'given', 'rounds': 'given'}
         env = {'rounds': sym('rounds'), 'epsilon': sym('epsilon'), 'delta': sym('delta'), 'alpha': sym('alpha'),
                'workload': Opaque('workload', Tag('public')), 'maxsize_mb': sym('maxsize_mb'), 'pgm_iters': sym('pgm_iters')}
@@ -71,7 +73,7 @@ def run(ctx):
         budget_ob(ctx, repo.nfunc(AG, 'adagrid'), total, sym('rho'), 'adagrid[split_strategy=%s]' % ('default' if split is None else 'given'), w)
         collect(covered, w)
         configs += 1
-    ctx.floor('closed-form budget configurations', configs, 7)
+    ctx.floor('closed-form budget configurations', configs, 9)
     # ---- AIM -------------------------------------------------------------------------------------------------------
     w = check_aim(ctx)
     check_rho_binding(ctx)
